@@ -51,7 +51,7 @@ def generate(ctx):
     rng = ctx.rng
     cases = []
     for i in range(ctx.budget(140, 1300)):
-        schema = gen.gen_schema(rng, 4, types=["int64", "double", "string", "bool", "int64", "double"])
+        schema = gen.spice_names(rng, gen.gen_schema(rng, 4, types=["int64", "double", "string", "bool", "int64", "double"]))
         heavy = i % 9 == 8
         n = rng.randint(0, 7 if ctx.tier == "quick" else 12)
         rows_g = gen.gen_rows(rng, schema, n, max_len=30 if heavy else 6, null_p=0.2)
